@@ -1013,13 +1013,28 @@ def sec_ionq_job(ctx, rng, case):
             ctx.check(cres.params.param_dict == {"s": sweep_vals[j]} or dict(cres.params.param_dict) == {sym: sweep_vals[j]},
                       "ionq-job-chain", mech + "sweep-params", "result %d carries params %r" % (j, cres.params), **wit)
     else:
+        # compiler settings travel with the job; they are instructions to IonQ's compiler, not a licence for the client to
+        # submit another program
+        kw = {}
+        if rng.random() < 0.4:
+            kw["compilation"] = {"opt": int(rng.integers(0, 4)), "precision": str(rng.choice(["1E-2", "1E-3", "1E-5"]))}
+            ctx.event("ionq-chain:with-compilation-settings")
+        wit["compilation"] = kw.get("compilation")
         if mode == "single":
-            job = service.create_job(circuits[0], repetitions=shots, target=target, name="vf")
+            job = service.create_job(circuits[0], repetitions=shots, target=target, name="vf", **kw)
         else:
-            job = service.create_batch_job(circuits, repetitions=shots, target=target, name="vf")
+            job = service.create_batch_job(circuits, repetitions=shots, target=target, name="vf", **kw)
         res = job.results()
         res_list = res if isinstance(res, list) else [res]
         body = http.jobs[http.order[0]]
+        posted_us = IR.program_unitaries(body["input"])
+        nq_posted = body["input"]["qubits"]
+        ctx.check(len(posted_us) == nprog, "ionq-job-chain", mech + "posted-program-count", "%d circuits, %d posted programs" % (nprog, len(posted_us)), **wit)
+        for i, (pr, pu) in enumerate(zip(progs, posted_us)):
+            if native:
+                break
+            ctx.check(L.phase_equal(pu, program_unitary(pr["ops"], nq_posted, pr["idx"]), UTOL), "ionq-job-chain",
+                      mech + "posted-payload-unitary", "posted program %d differs from the circuit it was built from" % i, position=i, **wit)
         ctx.check(len(res_list) == nprog and len(http.order) == 1, "ionq-job-chain", mech + "result-count",
                   "%d circuits, %d results" % (nprog, len(res_list)), **wit)
         ctx.check(body.get("backend") == target and str(body.get("shots")) == str(shots), "ionq-job-chain", mech + "posted-settings",
